@@ -65,7 +65,7 @@ def generate_stub_data(
         shortest_path, alias = _get_shortest_public_reexport(
             reexport_map=api.reexport_map,
             name=module.name,
-            qname="",
+            qname=module.id.replace("/", "."),
             is_module=True,
         )
         if shortest_path:
